@@ -111,17 +111,23 @@ class DFTA(Generic[U, V]):
         self.finals = self.finals.intersection(new_states)
 
     def __remove_unproductive__(self) -> None:
-        removed = True
-        while removed:
-            removed = False
-            consumed: Set[U] = {q for q in self.finals}
-            for _, args in self.rules:
-                for arg in args:
-                    consumed.add(arg)
-            for S, dst in list(self.rules.items()):
-                if dst not in consumed:
-                    del self.rules[S]
-                    removed = True
+        # A state is productive iff a final state can be derived from it:
+        # final states are, and so are the arguments of a rule whose
+        # destination is.  Being consumed by some rule is not enough: a cycle
+        # of states that never reaches a final state consumes itself.
+        productive: Set[U] = {q for q in self.finals}
+        added = True
+        while added:
+            added = False
+            for (_, args), dst in self.rules.items():
+                if dst in productive:
+                    for arg in args:
+                        if arg not in productive:
+                            productive.add(arg)
+                            added = True
+        for S, dst in list(self.rules.items()):
+            if dst not in productive:
+                del self.rules[S]
 
     def reduce(self) -> None:
         """
